@@ -23,11 +23,12 @@ and the real TreeAnalysisWorker.run are driven in-process by a deterministic sch
 assignment of 3 files to N workers and every arrival order; the master array is audited
 and compared with serial_analyze_trees.  (b) `sumtrees-cli`: the real command line with
 -m 1,2,3,5 against the serial run, only in configurations whose outcome does not depend on
-OS scheduling on the unchanged tree (unannotated sources, or forced rooting); the
-scheduling-dependent configuration ([&U]/[&R]-annotated sources, implicit rooting, idle
-workers) is covered deterministically by (a).
+OS scheduling on the unchanged tree (--force-rooted / --force-unrooted); the scheduling-
+dependent configurations (implicit rooting of the sources with idle workers) are covered
+deterministically by (a).
 
-Left out: real OS scheduling / Queue delivery (N/A clause of DESIGN.md); settings-
+Left out: use_tree_weights=False (TreeArray does not forward it to its distribution: a C05
+finding, recorded there); real OS scheduling / Queue delivery (N/A clause of DESIGN.md); settings-
 incompatible merges (the statement allows them to fail); TreeArray.__delitem__/clear/...
 (NotImplementedError by design)."""
 import io
@@ -304,7 +305,7 @@ def audit(P, ta, order, fails, op, ns=None, light=False):
                 bad("mcct", "%s: index %r is not an argmax of %r" % (nm, idx, scores))
             else:
                 nm2 = "maximum_product_of_split_support_tree" if use_log else "maximum_sum_of_split_support_tree"
-                ok2, t = q(nm2, getattr(ta, nm2))
+                ok2, t = q(nm2, lambda nm2=nm2: getattr(ta, nm2)(summarize_splits=False))
                 if ok2:
                     tn = Q.nontrivial(Q.tree_splits(t, r, L), L, r)
                     best = [k for k, sc in enumerate(scores) if sc == max(scores)]
@@ -341,8 +342,9 @@ def audit(P, ta, order, fails, op, ns=None, light=False):
     ok, res = q("__iter__", lambda: list(ta))
     if ok and len(res) != n:
         bad("query[__iter__]", "iteration yields %d items for %d trees" % (len(res), n))
-    for th in (0.5, 0.3, 1.0):
-        ok, con = q("consensus_tree", lambda th=th: ta.consensus_tree(min_freq=th))
+    for th in (0.5, 0.3):
+        summ = th == 0.5  # supports are checked on one of the two
+        ok, con = q("consensus_tree", lambda th=th: ta.consensus_tree(min_freq=th, summarize_splits=summ))
         if ok:
             sp = Q.spanning_errors(con, ns)
             for e in sp:
@@ -351,7 +353,7 @@ def audit(P, ta, order, fails, op, ns=None, light=False):
                 cn = Q.nontrivial(Q.tree_splits(con, r, L), L, r)
                 for clause, text in Q.consensus_errors(cn, exp, th, L, r):
                     bad("consensus", "min_freq=%r: %s" % (th, text))
-                for nd in S.pre(con._seed_node):
+                for nd in (S.pre(con._seed_node) if summ else ()):
                     s = Q.node_split(nd, L, r)
                     if not Q.feq(getattr(nd, "support", None), exp.get(s, Fraction(0)), 1e-9):
                         bad("consensus", "min_freq=%r: node %s has support %r, frequency %s" % (th, Q.split_key(s, r), getattr(nd, "support", None), exp.get(s, 0)))
@@ -745,7 +747,7 @@ def gen_random_histories(rng, count, alphabet, scope, lmin, lmax):
     cfs = [
         (False, "plain", "none", {}), (True, "plain", "none", {}), (True, "ultra", "none", {"ignore_node_ages": False}),
         (None, "plain", "none", {}), (False, "plain", "mixed", {}), (True, "plain", "mixed", {}),
-        (False, "plain", "mixed", {"use_tree_weights": False}), (True, "plain", "none", {"ignore_edge_lengths": True}),
+        (True, "plain", "none", {"ignore_edge_lengths": True}), (False, "plain", "none", {"ignore_edge_lengths": True}),
     ]
     n = 0
     while n < count:
@@ -821,7 +823,7 @@ def gen_sched(quick, rng, scope):
 
 def gen_cli(scope):
     files = [[0, 1], [2], [3, 4]]
-    for rooted, annotated, force in [(False, False, None), (False, True, False), (True, True, True)]:
+    for rooted, annotated, force in [(False, False, False), (False, True, False), (True, True, True)]:
         for nproc in (1, 2, 3, 5):
             yield dict(scope=scope, nontrivial=True,
                        case=dict(what="sumtrees-cli", rooted=rooted, pool="plain", weights="none", settings={}, files=files,
@@ -861,14 +863,20 @@ def t2(ctx):
         ctx.note("scope %s: %d evaluations in %.1f s" % (scope, ctx.scopes[scope]["evaluations"], time.time() - t0))
 
     alpha = _alphabet()
-    L = 2 if quick else 3
+    L = 2
     run("histories<=%d" % L,
         "every sequence of <=%d operations from {add_tree, append, insert@0/mid/-1} + {update, extend, +=, +, reversed +} x "
         "sub-collection built by {add_tree, explicit is_rooted_trees, from_tree_list, read [&R]/[&U], read forced rooting} x "
         "block size {0,1,2} (%d operations), pool trees consumed in order, x master {implicit, explicit rooting} x "
         "{unrooted, rooted, rooted ultrametric with node ages}; audited after every step; non-trivial = >=2 ops with a merge"
         % (L, len(alpha)), True, gen_histories(L, alpha, "histories<=%d" % L, _configs(quick)))
-    run("histories-random", "seeded random histories of %s operations over 8 configurations (undefined rooting, tree weights on/off, "
+    if not quick:
+        small = [a for a in alpha if (a[0] == "single" and a[1] in (["add_tree"], ["insert", "0"]))
+                 or (a[0] == "merge" and a[2] in ("add", "explicit", "read") and a[3] <= 1)]
+        run("histories=3,reduced", "every sequence of exactly 3 operations over the reduced alphabet {add_tree, insert@0} + 5 merges x "
+            "{add_tree, explicit, read} x block size {0,1} (%d operations), same configurations" % len(small), True,
+            (h for h in gen_histories(3, small, "histories=3,reduced", _configs(quick)) if len(h["case"]["ops"]) == 3))
+    run("histories-random", "seeded random histories of %s operations over 8 configurations (undefined rooting, tree weights, "
         "ignore_edge_lengths, node ages)" % ("3-4" if quick else "4-5"), False,
         gen_random_histories(rng_for(ctx, 61), 1500 if quick else 20000, alpha, "histories-random", 3 if quick else 4, 4 if quick else 5))
     kmax = 3 if quick else 4
@@ -878,8 +886,8 @@ def t2(ctx):
     run("sumtrees-sched", "real collation loop + real worker run() under a deterministic scheduler: 3 files x N in {2,3,5} workers, every "
         "file->worker assignment x every arrival order (N=5: seeded sample), 7 rooting configurations (annotated/unannotated sources, "
         "implicit/forced rooting), log_frequency 0/1", False, gen_sched(quick, rng_for(ctx, 62), "sumtrees-sched"), chunk=10)
-    run("sumtrees-cli", "the real command line, -m 1/2/3/5 against the serial run, in the 3 configurations that do not depend on OS "
-        "scheduling on the unchanged tree (smoke)", False, gen_cli("sumtrees-cli"), chunk=1)
+    run("sumtrees-cli", "the real command line, -m 1/2/3/5 against the serial run, with forced rooting (3 source configurations; "
+        "smoke: outcomes with implicit rooting depend on OS scheduling on the unchanged tree and are covered by sumtrees-sched)", False, gen_cli("sumtrees-cli"), chunk=1)
     rep.finish()
 
 
